@@ -14,7 +14,7 @@
    trees and on the implementation's pages, and is false for trees whose directory order is not key order
    (known finding c07:order-incompatible-tree, witness below). *)
 From Coq Require Import String Ascii List Arith Bool.
-From VGW Require Import Base.GoStr Model.Walk Spec.ListSpec Proofs.WalkProof Proofs.WalkFlat Proofs.WalkRefine Proofs.WalkPage Proofs.WalkDelim Proofs.WalkFolder.
+From VGW Require Import Base.GoStr Model.Walk Spec.ListSpec Proofs.WalkProof Proofs.WalkFlat Proofs.WalkRefine Proofs.WalkPage Proofs.WalkDelim Proofs.WalkFolder Proofs.WalkSubtree.
 Import ListNotations.
 Open Scope string_scope.
 
@@ -82,6 +82,18 @@ Theorem C07_folder_refines : forall t q kids marker max,
   walk t (q ++ "/") "/" marker max [] true = Some (s3_list (keys_at q (D false kids)) (q ++ "/") "/" marker max).
 Proof. exact folder_walk. Qed.
 Print Assumptions C07_folder_refines.
+
+(* the same over the bucket's whole key set: in a tree whose names are path segments and whose siblings have distinct names, the keys
+   with the prefix "q/" are exactly the keys below the directory q (Proofs/WalkSubtree.v), so the folder page is the page the S3
+   rule demands of ALL the bucket's keys *)
+Theorem C07_folder_refines_bucket : forall t q kids marker max,
+  names_ok t -> segs_ok_tree t -> sorted_b (keys_at "." t) = true ->
+  q <> "." -> q <> "" ->
+  forallb valid_seg (split_slash q "") = true -> resolve t (split_slash q "") = Some (D false kids) ->
+  kids <> [] -> folder_keyed q kids -> sorted_b (map fst (nodes_at q (D false kids))) = true ->
+  walk t (q ++ "/") "/" marker max [] true = Some (s3_list (sort_strs (keys_at "." t)) (q ++ "/") "/" marker max).
+Proof. exact folder_walk_bucket. Qed.
+Print Assumptions C07_folder_refines_bucket.
 
 (* internal bookkeeping names never appear: a prefix that leads into (or below) a bookkeeping directory lists nothing, whatever
    the tree, delimiter, marker and page size; at the top level such a directory is skipped by the walk itself (Model.Walk.cb) *)
@@ -167,3 +179,15 @@ Example C07_example_bookkeeping :
   walk t "" "" "" 10 [".sgwtmp"] false = Some {| r_objs := ["a"]; r_cps := []; r_trunc := false; r_next := "" |} /\
   walk t ".sgwtmp/multipart/" "" "" 10 [] false = Some {| r_objs := [".sgwtmp/multipart/h/u/1"]; r_cps := []; r_trunc := false; r_next := "" |}.
 Proof. vm_compute. repeat split; reflexivity. Qed.
+
+(* non-vacuity of the bucket-level folder theorem on the tree of C07_example_folder *)
+Example C07_example_folder_bucket :
+  let kids := [("a", F true); ("s", D false [("x", F true); ("y", F true)]); ("z", F true)] in
+  let t := D false [("p", D false [("d", D false kids)]); ("r", F true)] in
+  names_ok t /\ segs_ok_tree t /\ sorted_b (keys_at "." t) = true /\
+  keys_at "." t = ["p/d/a"; "p/d/s/x"; "p/d/s/y"; "p/d/z"; "r"] /\
+  s3_list (sort_strs (keys_at "." t)) "p/d/" "/" "" 2 = {| r_objs := ["p/d/a"]; r_cps := ["p/d/s/"]; r_trunc := true; r_next := "p/d/s/" |}.
+Proof.
+  cbv zeta. split; [cbn; repeat split; discriminate|]. split; [|vm_compute; repeat split; reflexivity].
+  cbn. repeat split; try reflexivity; intros m c' H; repeat (destruct H as [H|H]; [inversion H; subst; discriminate|]); destruct H.
+Qed.
